@@ -263,6 +263,10 @@ class Gen:
         if name == "case":
             n = self.nid()
             cases = [[rng.choice(PRED_NAMES), self.expr(d)] for _ in range(rng.choice([1, 2, 3]))]
+            for c_ in cases:
+                if rng.random() < 0.25:
+                    # a condition that is an expression over the options (its keys are part of what the case reads)
+                    c_[0] = rng.choice(["eqopt:", "eqopt:", "eqopt!:"]) + rng.choice(["B", "C", "S.X", "T.X"])
             s = {"k": "case", "disp": self.expr(d), "cases": cases, "n": n}
             if rng.random() < 0.6:
                 s["default"] = self.expr(d)
